@@ -438,6 +438,27 @@ def _ob(oid, prop, status, fi, text, detail='', model=None):
                       text=text, detail=detail, model=model)
 
 
+# Cache entries that a mutator may re-seed after the reset, with the reason the seeded value equals
+# what the getter would compute (each is additionally checked by the bounded drivers).  Any other
+# `self.__dict__[lazy] = value` in a mutator is an unverified re-seeding and fails the obligation.
+VERIFIED_SEEDS = {
+    ('SegmentationImage', 'data.setter', 'labels'):
+        'labels = _get_labels(value) computed from the new array just validated',
+    ('SegmentationImage', 'relabel_consecutive', 'labels'):
+        'new_labels = arange(nlabels) + start_label is the image of the sorted old labels under '
+        'the strictly increasing relabel map',
+    ('SegmentationImage', 'relabel_consecutive', 'slices'):
+        'the relabel map is strictly increasing on present labels, so the footprints and their '
+        'order (sorted by label) are unchanged',
+    ('ProfileBase', 'normalize', 'profile'): 'scaled-cache invariant: cached = raw / normalization',
+    ('ProfileBase', 'normalize', 'profile_error'): 'scaled-cache invariant',
+    ('ProfileBase', 'normalize', 'data_profile'): 'scaled-cache invariant (only if cached)',
+    ('ProfileBase', 'unnormalize', 'profile'): 'scaled-cache invariant',
+    ('ProfileBase', 'unnormalize', 'profile_error'): 'scaled-cache invariant',
+    ('ProfileBase', 'unnormalize', 'data_profile'): 'scaled-cache invariant (only if cached)',
+}
+
+
 def coherence_obligations(world, prop, rel, cname, seeds_ok=()):
     """Mutator coherence for class cname."""
     cls = find_class(world, rel, cname)
@@ -459,7 +480,7 @@ def coherence_obligations(world, prop, rel, cname, seeds_ok=()):
             continue      # private helpers are inlined into the public methods that call them
         seq = evs(fi)
         writes = [(i, e) for i, e in enumerate(seq) if e.kind in ('write', 'inplace')]
-        if not writes:
+        if not writes and not any(e.kind == 'seed' for e in seq):
             continue
         problems = []
         seeded = set()
@@ -483,6 +504,17 @@ def coherence_obligations(world, prop, rel, cname, seeds_ok=()):
             if not ok:
                 problems.append((w, sorted(dep)))
         seeded = sorted({e.field for e in seq if e.kind == 'seed' and e.field in lazies})
+        mname = fi.name + ('.setter' if fi.is_setter else '')
+        owners = {k.name for k in cls.mro(world)}
+        for ev0 in seq:
+            if ev0.kind != 'seed' or ev0.field not in lazies:
+                continue
+            # the method whose body contains the store (helpers are inlined)
+            site = ev0.func.split('.')[-1]
+            if site == fi.name and fi.is_setter:
+                site = mname
+            if not any((o, site, ev0.field) in VERIFIED_SEEDS for o in owners):
+                problems.append((ev0, [f'unverified re-seeding of the cache of {ev0.field!r}']))
         tgt = f'{fi.qualname}' + ('.setter' if fi.is_setter else '')
         oid = f'{base}.{fi.name}{".setter" if fi.is_setter else ""}/coherence'
         text = (f'{tgt}: every write of a field is accompanied by a reset of all cached lazy '
@@ -491,9 +523,14 @@ def coherence_obligations(world, prop, rel, cname, seeds_ok=()):
                    'bounded)' if seeded else ''))
         if problems:
             w, dep = problems[0]
-            obs.append(_ob(oid, prop, REFUTED, fi, text,
-                           f'write of {w.field} at {w.func}:{w.line} leaves cached {dep} stale '
-                           '(no _reset_lazyproperties()/pop on this path)',
+            if w.kind == 'seed':
+                detail = (f'{w.func}:{w.line} stores a value into the cache of {w.field!r} '
+                          'although no seed obligation shows it equals what the getter computes '
+                          'on the new state (not in VERIFIED_SEEDS)')
+            else:
+                detail = (f'write of {w.field} at {w.func}:{w.line} leaves cached {dep} stale '
+                          '(no _reset_lazyproperties()/pop on this path)')
+            obs.append(_ob(oid, prop, REFUTED, fi, text, detail,
                            {'field': w.field, 'line': w.line, 'stale': dep}))
         else:
             obs.append(_ob(oid, prop, DISCHARGED, fi, text))
@@ -734,7 +771,12 @@ def descriptor_obligations(world, prop):
             for fi in c.methods.values():
                 if fi.name == '__init__' or fi.is_setter:
                     continue
+                other_cache = [d for d in fi.decorators
+                               if d.split('.')[-1] in ('cached_property', 'lru_cache', 'cache')]
                 wr = [f for f in fi.field_writes if not f.startswith('__')]
+                if other_cache:
+                    wr = wr + [f'@{other_cache[0]} (not reset by the attribute descriptors, which '
+                               'only pop astropy lazyproperty members)']
                 oid = f'coherence:{rel3}::{c.name}.{fi.name}/no-plain-cache'
                 text = (f'{c.qualname if hasattr(c, "qualname") else c.name}.{fi.name} stores no '
                         'derived value in a plain field (only lazyproperty caches, which the '
